@@ -141,7 +141,7 @@ pub fn value_for(kind: Kind) -> BoxedStrategy<Option<String>> {
         Kind::Label => s(prop_oneof![3 => pick(&["alpha", "beta", "rc"]).prop_map(String::from), 2 => pick(&["none", "null", "nil", "", "ALPHA", "a", "gamma", "dev", "{{ bumped_branch }}", "{% if dirty %}rc{% else %}beta{% endif %}", "{{"]).prop_map(String::from)].boxed()),
         Kind::Index => s(
             (prop_oneof![4 => (0i64..5).prop_map(|i| i.to_string()), 2 => pick(&["-1", "-9", "~1", "~0", "~-1", "~", "", "x", "99999999999999999999", "-0", "+1", "1=1"]).prop_map(String::from)],
-             proptest::option::weighted(0.7, prop_oneof![3 => num::u32_biased().prop_map(|n| n.to_string()), 2 => text::tame(), 1 => pick(BAD_NUMS).prop_map(String::from), 1 => pick(BAD_TEMPLATES).prop_map(String::from)]))
+             proptest::option::weighted(0.7, prop_oneof![3 => num::u32_biased().prop_map(|n| n.to_string()), 2 => text::tame(), 1 => pick(BAD_NUMS).prop_map(String::from), 1 => pick(BAD_TEMPLATES).prop_map(String::from), 2 => pick(&["alpha", "beta", "rc", "post", "dev", "epoch", "none", "a", "b"]).prop_map(String::from)]))
                 .prop_map(|(i, v)| match v { Some(v) => format!("{i}={v}"), None => i })
                 .boxed(),
         ),
